@@ -121,7 +121,13 @@ type op struct {
 	Locs []hostArg  `json:"locs,omitempty"`
 	N    string     `json:"n,omitempty"`
 	V    string     `json:"v,omitempty"`
+	Path *bool      `json:"path,omitempty"` // routers: the update carries the path of the router's directory (storage mode dir)
 }
+
+// withPath: updates of a directory-mode router carry the directory's path unless the case says they arrive without one
+// (admin API, xDS): such a router is stored inline from then on
+func (o op) withPath() bool { return o.Path == nil || *o.Path }
+
 type histCase struct {
 	Ops []op     `json:"ops"`
 	Cm  string   `json:"cm"` // storage mode of the dumped clusters: inline | dir (clusters_configs directory)
@@ -368,7 +374,7 @@ func (p *replay) apply(o op) bool {
 		}
 		cfg := &v2.RouterConfiguration{}
 		vh.Must(json.Unmarshal(b, cfg), "router config")
-		if dir := p.routerDir(o.R); dir != "" {
+		if dir := p.routerDir(o.R); dir != "" && o.withPath() {
 			// dynamic router mode (router_configs: <dir>, one file per virtual host): such a configuration is
 			// loaded from the directory, it never carries inline virtual_hosts as well
 			cfg.RouterConfigPath = dir
@@ -471,7 +477,11 @@ func dumped() *v2.MOSNConfig {
 	b, err := configmanager.InheritMosnconfig()
 	vh.Must(err, "dump")
 	cfg := &v2.MOSNConfig{}
-	vh.Must(json.Unmarshal(b, cfg), "dump is not loadable")
+	if err := json.Unmarshal(b, cfg); err != nil {
+		// a dump the loader refuses describes nothing: every object rebuilt from it is absent (judged by the trace spec)
+		fmt.Fprintf(os.Stderr, "dump is not loadable: %v\n", err)
+		return &v2.MOSNConfig{}
+	}
 	return cfg
 }
 
@@ -584,7 +594,7 @@ func opEvent(o op, failed bool) vh.Ev {
 				vhs[i].Routes = []route{}
 			}
 		}
-		ev["r"], ev["vhs"] = o.R, vhs
+		ev["r"], ev["vhs"], ev["path"] = o.R, vhs, o.withPath()
 	case "addroute":
 		ev["r"], ev["dom"], ev["rt"] = o.R, o.Dom, o.Rt
 	case "rmroutes":
